@@ -125,7 +125,73 @@ func checkC07(r *core.Run) {
 	{
 		ctxParam := paramObjs(with)[0]
 		beginReach := newReach(w, 3, func(f *types.Func) bool { return f == beginM || f == joinFn.Obj })
+		// a local that received GetXID(ctx) on a path that knows IsGlobalTx(ctx) is not empty (premise checked
+		// below): the branch testing it empty is infeasible there
+		xidAxiom := c07XidAxiom(r)
+		emptyTest := func(info *types.Info, cond ast.Expr, branch bool) types.Object {
+			be, ok := ast.Unparen(cond).(*ast.BinaryExpr)
+			if !ok {
+				return nil
+			}
+			x, y := ast.Unparen(be.X), ast.Unparen(be.Y)
+			isEmptyLit := func(e ast.Expr) bool {
+				v := core.ConstVal(info, e)
+				return v != nil && v.Kind() == constant.String && constant.StringVal(v) == ""
+			}
+			isZero := func(e ast.Expr) bool {
+				v := core.ConstVal(info, e)
+				return v != nil && v.Kind() == constant.Int && v.ExactString() == "0"
+			}
+			var o types.Object
+			emptyWhenTrue := false
+			switch {
+			case isEmptyLit(y) && (be.Op == token.EQL || be.Op == token.NEQ):
+				o, emptyWhenTrue = core.ObjOf(info, x), be.Op == token.EQL
+			case isEmptyLit(x) && (be.Op == token.EQL || be.Op == token.NEQ):
+				o, emptyWhenTrue = core.ObjOf(info, y), be.Op == token.EQL
+			case isZero(y):
+				if c, ok := x.(*ast.CallExpr); ok && len(c.Args) == 1 {
+					if id, ok := c.Fun.(*ast.Ident); ok && id.Name == "len" {
+						switch be.Op {
+						case token.EQL:
+							o, emptyWhenTrue = core.ObjOf(info, c.Args[0]), true
+						case token.NEQ, token.GTR:
+							o, emptyWhenTrue = core.ObjOf(info, c.Args[0]), false
+						}
+					}
+				}
+			}
+			if o == nil || emptyWhenTrue != branch {
+				return nil
+			}
+			return o
+		}
 		sp := &flow.Spec{W: w, Depth: 0, Split: []flow.Tag{"true:isglobal"},
+			CondTags: func(pkg *packages.Package, cond ast.Expr, branch bool) []flow.Tag {
+				if o := emptyTest(pkg.TypesInfo, cond, branch); o != nil && xidAxiom {
+					return []flow.Tag{"#not:xidcopy:" + o.Name()}
+				}
+				return nil
+			},
+			Effect: func(pkg *packages.Package, n ast.Node, st *flow.State) {
+				as, ok := n.(*ast.AssignStmt)
+				if !ok || pkg != with.Pkg {
+					return
+				}
+				for i, l := range as.Lhs {
+					o := core.ObjOf(pkg.TypesInfo, l)
+					if o == nil {
+						continue
+					}
+					delete(st.Must, "xidcopy:"+o.Name())
+					if len(as.Lhs) == len(as.Rhs) && (as.Tok == token.ASSIGN || as.Tok == token.DEFINE) {
+						if c, ok := ast.Unparen(as.Rhs[i]).(*ast.CallExpr); ok && core.IsPkgFunc(core.Callee(pkg.TypesInfo, c), pTM, "GetXID") && len(c.Args) == 1 &&
+							isObj(pkg.TypesInfo, c.Args[0], ctxParam) && st.Has("true:isglobal") && !st.Maybe("mutate") && !st.Maybe("rebind") {
+							st.Must["xidcopy:"+o.Name()] = true
+						}
+					}
+				}
+			},
 			Classify: func(pkg *packages.Package, call *ast.CallExpr, callee *types.Func) []flow.Tag {
 				switch {
 				case core.IsPkgFunc(callee, pTM, "IsGlobalTx"):
@@ -350,6 +416,124 @@ func keyConst(info *types.Info, e ast.Expr) *types.Const {
 	return nil
 }
 
+// keyConstSet: the key constants a metadata key expression may denote — a constant, strings.ToLower/ToUpper of
+// one, the element variable of a range over a slice (literal or package-level variable) of such constants, or a
+// parameter of a helper of the package (then: whatever its callers pass). ok is false when some possibility is not
+// a constant.
+func keyConstSet(w *core.World, fn *core.FuncInfo, e ast.Expr, depth int) (out []*types.Const, ok bool) {
+	info := fn.Pkg.TypesInfo
+	if depth <= 0 {
+		return nil, false
+	}
+	if c := keyConst(info, e); c != nil {
+		return []*types.Const{c}, true
+	}
+	e = ast.Unparen(e)
+	if call, isCall := e.(*ast.CallExpr); isCall && len(call.Args) == 1 {
+		if f := core.Callee(info, call); f != nil && f.Pkg() != nil && f.Pkg().Path() == "strings" && (f.Name() == "ToLower" || f.Name() == "ToUpper") {
+			return keyConstSet(w, fn, call.Args[0], depth)
+		}
+	}
+	elems := func(pkg *packages.Package, lit ast.Expr) ([]*types.Const, bool) {
+		cl, isLit := ast.Unparen(lit).(*ast.CompositeLit)
+		if !isLit || len(cl.Elts) == 0 {
+			return nil, false
+		}
+		var cs []*types.Const
+		for _, el := range cl.Elts {
+			c := keyConst(pkg.TypesInfo, el)
+			if c == nil {
+				return nil, false
+			}
+			cs = append(cs, c)
+		}
+		return cs, true
+	}
+	id, isID := e.(*ast.Ident)
+	if !isID {
+		return nil, false
+	}
+	v, isVar := info.Uses[id].(*types.Var)
+	if !isVar {
+		return nil, false
+	}
+	if isParam(fn, v) {
+		// every caller in the package
+		sig := fn.Obj.Type().(*types.Signature)
+		idx := -1
+		for i := 0; i < sig.Params().Len(); i++ {
+			if sig.Params().At(i) == v {
+				idx = i
+			}
+		}
+		n := 0
+		all := true
+		for _, cs := range w.Callers(fn.Obj) {
+			if w.IsTestFile(cs.Call.Pos()) || cs.Caller == nil {
+				continue
+			}
+			n++
+			if idx < 0 || idx >= len(cs.Call.Args) {
+				all = false
+				continue
+			}
+			sub, ok := keyConstSet(w, cs.Caller, cs.Call.Args[idx], depth-1)
+			if !ok {
+				all = false
+			}
+			out = append(out, sub...)
+		}
+		return out, all && n > 0
+	}
+	defs := localDefs(fn, v)
+	if len(defs) != 1 || !defs[0].rng {
+		return nil, false
+	}
+	// range over a slice literal or a package-level slice variable initialised with one (never reassigned)
+	src := ast.Unparen(defs[0].rhs)
+	if cs, ok := elems(fn.Pkg, src); ok {
+		return cs, true
+	}
+	var gv *types.Var
+	switch x := src.(type) {
+	case *ast.Ident:
+		gv, _ = info.Uses[x].(*types.Var)
+	case *ast.SelectorExpr:
+		gv, _ = info.Uses[x.Sel].(*types.Var)
+	}
+	if gv == nil || gv.Pkg() == nil || gv.Parent() != gv.Pkg().Scope() {
+		return nil, false
+	}
+	if _, mutated := runtimeMutatedGlobals(w)[gv]; mutated {
+		return nil, false
+	}
+	for _, p := range w.ByPath {
+		if p.Types != gv.Pkg() {
+			continue
+		}
+		for _, file := range p.Syntax {
+			for _, d := range file.Decls {
+				gd, isGen := d.(*ast.GenDecl)
+				if !isGen {
+					continue
+				}
+				for _, sp := range gd.Specs {
+					vs, isVS := sp.(*ast.ValueSpec)
+					if !isVS {
+						continue
+					}
+					for i, nm := range vs.Names {
+						if p.TypesInfo.Defs[nm] == gv && i < len(vs.Values) {
+							return elems(p, vs.Values[i])
+						}
+					}
+				}
+			}
+		}
+	}
+	return nil, false
+}
+
 // xidSources expands the value of e inside fn into leaf descriptions, descending into same-package helpers.
 func xidSources(w *core.World, fn *core.FuncInfo, e ast.Expr, depth int, keys map[string]bool, bad *[]string) {
 	info := fn.Pkg.TypesInfo
@@ -396,12 +580,19 @@ func xidSources(w *core.World, fn *core.FuncInfo, e ast.Expr, depth int, keys ma
 				*bad = append(*bad, "metadata read without key")
 				return
 			}
-			c := keyConst(info, x.Args[0])
-			if c == nil || !xidKeyConsts[c.Name()] {
+			cs, okKeys := keyConstSet(w, fn, x.Args[0], 3)
+			for _, c := range cs {
+				if !xidKeyConsts[c.Name()] {
+					okKeys = false
+				}
+			}
+			if !okKeys || len(cs) == 0 {
 				*bad = append(*bad, "metadata read under key "+core.ExprString(x.Args[0]))
 				return
 			}
-			keys[strings.ToLower(constant.StringVal(c.Val()))] = true
+			for _, c := range cs {
+				keys[strings.ToLower(constant.StringVal(c.Val()))] = true
+			}
 			// default value argument must be empty
 			if len(x.Args) == 2 {
 				if v := core.ConstVal(info, x.Args[1]); v == nil || v.Kind() != constant.String || constant.StringVal(v) != "" {
@@ -542,6 +733,28 @@ func c07RPC(r *core.Run) {
 								writeKeys[strings.ToLower(constant.StringVal(c.Val()))] = true
 							}
 							r.Check(o == "call:pkg/tm.GetXID(param:ctx)", "C07.rpc", core.ShortKey(f.Obj)+" : value written under "+constName(c), w.Pos(x.Pos()), "tm.GetXID(ctx) unmodified", "the value written to transport metadata derives from "+o+", not from tm.GetXID(ctx) unmodified")
+						}
+					}
+				case *ast.CompositeLit:
+					// header := map[string]string{constant.XidKey: xid}
+					if t := info.TypeOf(x); t == nil || !strings.HasPrefix(t.Underlying().String(), "map[string]") {
+						return true
+					}
+					for _, el := range x.Elts {
+						kv, ok := el.(*ast.KeyValueExpr)
+						if !ok {
+							continue
+						}
+						c := keyConst(info, kv.Key)
+						o := origin(f, kv.Value, 4)
+						if (c != nil && xidKeyConsts[c.Name()]) || strings.Contains(o, "pkg/tm.GetXID(") {
+							nWrite++
+							r.Fn(f)
+							r.Sites++
+							if c != nil {
+								writeKeys[strings.ToLower(constant.StringVal(c.Val()))] = true
+							}
+							r.Check(o == "call:pkg/tm.GetXID(param:ctx)", "C07.rpc", core.ShortKey(f.Obj)+" : value written under "+constName(c), w.Pos(kv.Pos()), "tm.GetXID(ctx) unmodified", "the value written to transport metadata derives from "+o+", not from tm.GetXID(ctx) unmodified")
 						}
 					}
 				case *ast.AssignStmt:
@@ -750,4 +963,136 @@ func scopeContextHelper(w *core.World, h *core.FuncInfo) bool {
 		}
 	}
 	return true
+}
+
+// c07XidAxiom: IsGlobalTx(ctx) implies GetXID(ctx) != "" — IsGlobalTx answers true only as `<variable>.Xid != ""`,
+// and GetXID returns that same field unless it is empty (only then it falls back to something else).
+func c07XidAxiom(r *core.Run) bool {
+	w := r.W
+	ig, gx := w.Func("pkg/tm", "", "IsGlobalTx"), w.Func("pkg/tm", "", "GetXID")
+	if ig == nil || gx == nil || ig.Decl.Body == nil || gx.Decl.Body == nil {
+		return false
+	}
+	ok := true
+	sawTest := false
+	ast.Inspect(ig.Decl.Body, func(n ast.Node) bool {
+		rs, isRet := n.(*ast.ReturnStmt)
+		if !isRet || len(rs.Results) != 1 {
+			return true
+		}
+		e := ast.Unparen(rs.Results[0])
+		if v := core.ConstVal(ig.Pkg.TypesInfo, e); v != nil && v.Kind() == constant.Bool && !constant.BoolVal(v) {
+			return true
+		}
+		be, isBin := e.(*ast.BinaryExpr)
+		if isBin && be.Op == token.NEQ {
+			if sel, isSel := ast.Unparen(be.X).(*ast.SelectorExpr); isSel && sel.Sel.Name == "Xid" {
+				if v := core.ConstVal(ig.Pkg.TypesInfo, be.Y); v != nil && v.Kind() == constant.String && constant.StringVal(v) == "" {
+					sawTest = true
+					return true
+				}
+			}
+		}
+		ok = false
+		return true
+	})
+	if !ok || !sawTest {
+		return false
+	}
+	// GetXID: the returned local starts as <variable>.Xid and is reassigned only under `if it == ""`
+	info := gx.Pkg.TypesInfo
+	var ret types.Object
+	good := true
+	ast.Inspect(gx.Decl.Body, func(n ast.Node) bool {
+		rs, isRet := n.(*ast.ReturnStmt)
+		if !isRet || len(rs.Results) != 1 {
+			return true
+		}
+		e := ast.Unparen(rs.Results[0])
+		if v := core.ConstVal(info, e); v != nil && v.Kind() == constant.String && constant.StringVal(v) == "" {
+			// only where there is no seata variable at all (IsGlobalTx is false there too)
+			return true
+		}
+		if o := core.ObjOf(info, e); o != nil {
+			ret = o
+			return true
+		}
+		if sel, isSel := e.(*ast.SelectorExpr); isSel && sel.Sel.Name == "Xid" {
+			return true
+		}
+		good = false
+		return true
+	})
+	if !good {
+		return false
+	}
+	if ret != nil {
+		v, isVar := ret.(*types.Var)
+		if !isVar {
+			return false
+		}
+		first := true
+		for _, d := range localDefsInOrder(gx, v) {
+			if first {
+				first = false
+				sel, isSel := ast.Unparen(d.rhs).(*ast.SelectorExpr)
+				if !isSel || sel.Sel.Name != "Xid" {
+					return false
+				}
+				continue
+			}
+			if !d.underEmptyTest {
+				return false
+			}
+		}
+		if first {
+			return false
+		}
+	}
+	r.Sites++
+	r.OK("C07.isolation", "premise: IsGlobalTx(ctx) implies GetXID(ctx) is not empty", w.Pos(gx.Decl.Pos()), "IsGlobalTx tests Xid != \"\"; GetXID returns Xid unless it is empty")
+	return true
+}
+
+type orderedDef struct {
+	rhs            ast.Expr
+	underEmptyTest bool
+}
+
+// localDefsInOrder: the assignments to v in source order, each with whether it sits in the body of `if v == ""`.
+func localDefsInOrder(fn *core.FuncInfo, v *types.Var) []orderedDef {
+	info := fn.Pkg.TypesInfo
+	var out []orderedDef
+	var stack []ast.Node
+	ast.Inspect(fn.Decl.Body, func(n ast.Node) bool {
+		if n == nil {
+			stack = stack[:len(stack)-1]
+			return true
+		}
+		stack = append(stack, n)
+		as, ok := n.(*ast.AssignStmt)
+		if !ok {
+			return true
+		}
+		for i, l := range as.Lhs {
+			if core.ObjOf(info, l) != v || len(as.Lhs) != len(as.Rhs) {
+				continue
+			}
+			under := false
+			for j := len(stack) - 2; j >= 1; j-- {
+				blk, isBlk := stack[j].(*ast.BlockStmt)
+				ifs, isIf := stack[j-1].(*ast.IfStmt)
+				if isBlk && isIf && ifs.Body == blk {
+					if be, ok := ast.Unparen(ifs.Cond).(*ast.BinaryExpr); ok && be.Op == token.EQL && core.ObjOf(info, be.X) == v {
+						if c := core.ConstVal(info, be.Y); c != nil && c.Kind() == constant.String && constant.StringVal(c) == "" {
+							under = true
+						}
+					}
+				}
+			}
+			out = append(out, orderedDef{as.Rhs[i], under})
+		}
+		return true
+	})
+	return out
 }
